@@ -399,3 +399,93 @@ def two_messages_clause(result, ghost, E):
         m = E.elem(msgs, i)
         r = r & S.eq(S.ival(m.seq), S.ival(seq)) & S.eq(m.type.value, typ.value) & S.eq(m.payload, p)
     return r
+
+
+# ------------------------------------------------------------------------------------------ the client endpoint: UdpClient.update
+# The client's frame loop: conn.update(); if the socket is readable: ONE recvfrom, the header decoded by
+# PacketHeader.from_bytes(False, ...) (direction check: only datagrams addressed to a client), then conn._recv_datagram(hdr,
+# datagram) - which is where authentication happens (contracts above).  Here: update() itself does nothing with the bytes but
+# hand them, unchanged and with their own header, to _recv_datagram exactly once, and writes no field of the connection itself -
+# so everything C01 says about _recv_datagram carries over to the client endpoint.  The connection's methods are recorded
+# models (each has its own contract), select / socket are assumed.
+UC_ = 'client.UdpClient'
+
+
+def _rec(name, result=None):
+    def m(ip, self, *a, **k):
+        ip.state.events.append((name, (self,) + tuple(a), dict(k)))
+        return result(ip) if callable(result) else result
+    return m
+
+
+def _maybe_packet(ip):
+    return Obj(None, {}, 'packet') if ip.ctx.choose(2) == 1 else None
+
+
+def _select(ip, fn, args, kwargs):
+    ip.ctx.lib_used.add('select.select / socket.recvfrom / socket.sendto: the socket is readable or not; recvfrom returns SOME bytes and a sender (assumed)')
+    rl = args[0]
+    return (PyList(list(rl.items)) if ip.ctx.choose(2) == 1 else PyList([]), PyList([]), PyList([]))
+
+
+def _recvfrom(ip, fn, args, kwargs):
+    d = ip.state.ghost['datagram']
+    ip.state.events.append(('recvfrom', (), {}))
+    return (d, ('203.0.113.9', 4000))
+
+
+def _sendto(ip, fn, args, kwargs):
+    ip.state.events.append(('sendto', tuple(args), {}))
+    return None
+
+
+@contract(UC_ + '.update', props=['C01'])
+class _:
+    def setup(E):
+        conn = E.obj(CSC, tag='conn', clock=clock(E), log=E.member_logger(), status=status(E, 'c_status'), last_send_time=E.real('last_send'), send_interval=E.real('send_interval', lo=0),
+                     last_recv_time=E.real('last_recv'), session_key_bytes=E.bytes('session_key', length=16))
+        E.ghost('conn', conn)
+        E.ghost('datagram', E.bytes('datagram'))
+        return dict(self=E.obj(UC_, tag='self', conn=conn, sock=Opaque('socket', {}), addr=('198.51.100.7', 1474), disconnect_acked=False,
+                               server_public_key=None, keep_alive_interval=E.real('u_ka'), temp_connection_timeout=E.real('u_tct'),
+                               outgoing_timeout=E.real('u_ot')))
+    hooks = {'model:connection.ClientServerConnection.update': _rec('conn.update'),
+             'model:connection.ConnectionBase._recv_datagram': _rec('conn._recv_datagram', lambda ip: ip.ctx.choose(2) == 1),
+             'model:connection.ConnectionBase._build_packet': _rec('conn._build_packet', _maybe_packet),
+             'model:connection.ConnectionBase._encode_packet': _rec('conn._encode_packet', b'sealed'),
+             'model:connection.ConnectionBase._check_timeout': _rec('conn._check_timeout'),
+             'opaque:select.select': _select, 'opaque:socket.recvfrom': _recvfrom, 'opaque:socket.sendto': _sendto}
+    # a datagram whose 20 header bytes do not decode, or that is not addressed to a client, is refused before the connection sees it
+    may_raise = ['Exception']
+    modifies = []
+    ensures = {
+        # (the cheap integer clause first: refuting an equality of long byte strings needs a model the sequence solver may not build)
+        'the-datagram-handed-over-has-the-received-length': lambda events, ghost: handed_length(events, ghost),
+        'a-received-datagram-reaches-_recv_datagram-once-unchanged-with-its-own-header': lambda events, ghost: client_hands_over(events, ghost),
+    }
+    ensures_exc = {
+        'a-refused-datagram-never-reaches-the-connection': lambda events: len([e for e in events if e[0] == 'conn._recv_datagram']) == 0,
+    }
+
+
+def handed_length(events, ghost):
+    rd = [e for e in events if e[0] == 'conn._recv_datagram']
+    if len(rd) != 1 or len(rd[0][1]) != 3:
+        return len(rd) == 0
+    return S.len(rd[0][1][2]) == S.len(ghost.datagram)
+
+
+def client_hands_over(events, ghost):
+    got = [e for e in events if e[0] == 'recvfrom']
+    rd = [e for e in events if e[0] == 'conn._recv_datagram']
+    if len(got) > 1 or len(rd) != len(got):
+        return False
+    if not rd:
+        return True
+    _, (conn, hdr, datagram), kw = rd[0]
+    if conn is not ghost.conn or kw:
+        return False
+    if not (isinstance(hdr, Obj) and hdr.cls is not None and hdr.cls.name == 'PacketHeader'):
+        return False
+    # the header was decoded from these very bytes, as a datagram travelling TO a client
+    return S.bool(S.term(datagram) == S.term(ghost.datagram)) & (hdr.attrs.get('isServer') is False or S.Not(hdr.attrs.get('isServer')))
